@@ -219,6 +219,9 @@ def sync(g, job, level):
     it = Interpreter(sc)
     sy = cm.SynchronizedClock(it)
     g.prove(Eq(sy.time, it.time), 'sync_before_first_step')
+    # a chain: `mid` runs on a clock synchronized with `it`; `sy2` follows `mid` (not the root of the chain)
+    mid = Interpreter(sc, clock=cm.SynchronizedClock(it))
+    sy2 = cm.SynchronizedClock(mid)
     for k in range(level['K']):
         a = g.real('a%d' % k, 0)
         it.clock.time = it.clock.time + a
@@ -240,3 +243,9 @@ def sync(g, job, level):
             conds.append(('macrostep_time', Eq(step.time, expected), {'k': k}))
         g.prove_all(conds)
         g.witness('sync_after_step')
+        # the follower of `mid` shows mid's last step time, also while the root has already moved on
+        g.prove(Eq(sy2.time, mid.time), 'chained_sync_follows_its_own_interpreter', {'k': k, 'phase': 'root stepped'})
+        if g.choice('m%d' % k, 2):
+            mid.execute_once()
+            g.prove_all([('chained_sync_follows_its_own_interpreter', Eq(sy2.time, mid.time), {'k': k, 'phase': 'mid stepped'}),
+                         ('mid_time_is_root_step_time', Eq(mid.time, it.time), {'k': k})])
